@@ -46,6 +46,11 @@ func (l *Lz4) Compress(data []byte) ([]byte, error) {
 func (l *Lz4) Decompress(in []byte) ([]byte, error) {
 	out := make([]byte, 100*len(in))
 	n, err := lz4.UncompressBlock(in, out)
+	if err == lz4.ErrInvalidSourceShortBuffer {
+		// a block can expand to 255 times its size (long runs of one byte): retry once with room for that
+		out = make([]byte, 255*len(in)+64)
+		n, err = lz4.UncompressBlock(in, out)
+	}
 	if err != nil {
 		return nil, err
 	}
